@@ -21,6 +21,7 @@ func (ex *Exec) execCall(fr *Frame, st *State, cc *ssa.CallCommon, instr ssa.Ins
 		for _, a := range cc.Args {
 			args = append(args, ex.operand(fr, st, a))
 		}
+		ex.siteHooks(fr, st, instr, "builtin."+bi.Name(), args, nil, cc, true)
 		return ex.builtin(fr, st, bi, cc, args, instr, pos)
 	}
 	fnv := ex.operand(fr, st, cc.Value)
